@@ -341,6 +341,17 @@ theorem alerts_snapshot (maxAlerts : Nat) (pending : List Nat) (hnd : pending.No
   have hinv : Inv s := Alerts.inv_run ⟨maxAlerts, true⟩ rfl sched (Alerts.inv_init pending hnd h0 todo)
   exact (hinv.2 k).copied
 
+/-- The sequential reference the driver judges returned alert lists by is the model's own: when
+alerts 1..k have gone through the writer (four steps each), the log is `alertsAfter maxAlerts k`
+read backwards — so by `alerts_snapshot` a reader then returns exactly `alertsAfter maxAlerts k`. -/
+theorem alerts_sequential (maxAlerts k todo : Nat) (b : Bool) :
+    (Alerts.run ⟨maxAlerts, b⟩ (Alerts.init (List.range' 1 k) todo) (List.replicate (4 * k) 0)).alerts
+      = (alertsAfter maxAlerts k).reverse := by
+  have h := Alerts.writer_alone ⟨maxAlerts, b⟩ (List.range' 1 k) (Alerts.init (List.range' 1 k) todo) rfl rfl rfl
+  simp only [List.length_range'] at h
+  rw [h.1]
+  exact Alerts.seq_log maxAlerts k
+
 /-- non-vacuity: a schedule in which reader 0 returns the two alerts delivered so far, newest first -/
 example : ((Alerts.run ⟨1000, true⟩ (Alerts.init [5, 6, 7] 1) [0, 0, 0, 0, 0, 0, 0, 0, 1, 1, 1, 1, 1, 1, 1]).readers 0).outs = [[6, 5]] := by
   decide
